@@ -477,7 +477,8 @@ def run(env):
         if i % env.nshards != env.shard:
             continue
         idx += 1
-        if (idx + env.seed) % stride or env.out_of_time():
+        # (the two-alternative Optional form has its own method: its pairs are never skipped by the quick stride)
+        if ((idx + env.seed) % stride and nb != "prim:none") or env.out_of_time():
             continue
         a, b = ba(g), bb(g)
         if isinstance(a, Prim) and a.p == "none":
